@@ -12,14 +12,3 @@ package keeper
 //@   requires #batch-bound: k.GetParams(ctx).LiquidationBatchSize <= pow2(62) && len(k.vault.GetVaults(ctx)) <= pow2(62)
 //@   nopanic
 
-// The sweep's only unprotected write is the offset holder; every per-vault step is wrapped (all-or-nothing).
-//@ func (k Keeper) Liquidate
-//@   property C15
-//@   note un-wrapped callees LiquidateBorrows and LiquidateForSurplusAndDebt are not yet under a nopanic contract
-
-// The borrow sweep (C15): each per-borrow step should be all-or-nothing and the sweep must not panic.
-//@ func (k Keeper) LiquidateBorrows
-//@   property C15
-//@   modifies liquidationsV2
-//@   requires #batch-bound: k.GetParams(ctx).LiquidationBatchSize <= pow2(62)
-//@   nopanic
